@@ -73,3 +73,26 @@ Example C12_nonvacuous_builder :
   process_vs ex_tbl (mkHdr 7 1 2 7 8 2) = Some (mkHdr 8 2 0 0 0 0).
 Proof. split; vm_compute; reflexivity. Qed.
 Print Assumptions C12_nonvacuous_builder.
+
+(* The chain-level verifier every imported batch goes through
+   (BlockChain.VerifyYouVersionState / VerifyYouVersionState2) accepts a batch
+   exactly when every link - the first header against the canonical header below
+   the batch, then each header against its predecessor IN THE BATCH - is accepted
+   by the pairwise verifier; all theorems above about [valid_chain] therefore
+   apply to every chain imported batch by batch, however the batches overlap what
+   the node already has. *)
+Theorem C12_batch_verifier_is_link_by_link :
+  forall t p l, consecutive (p :: l) = true ->
+    (verify_batch t p l = None <-> valid_chain t (p :: l) = true).
+Proof. exact verify_batch_none_iff. Qed.
+Print Assumptions C12_batch_verifier_is_link_by_link.
+
+(* ... and when it rejects, the index it reports is the first rejected link. *)
+Theorem C12_batch_verifier_reports_first_bad_link :
+  forall t p l i, verify_batch t p l = Some i ->
+    exists pre h post q,
+      l = pre ++ h :: post /\ N.of_nat (length pre) = i /\
+      q = last (p :: pre) p /\
+      verify_batch t p pre = None /\ verdict_eqb (verify_vs t q h) Ok = false.
+Proof. exact verify_batch_some. Qed.
+Print Assumptions C12_batch_verifier_reports_first_bad_link.
